@@ -103,9 +103,20 @@ pub fn small_cfgs(kind: Kind, thorough: bool) -> Vec<Cfg> {
 }
 
 /// pick a configuration for a random history
+/// a medium-sized configuration (tens of entries: index growth / rehash, long lists)
+pub fn medium_cfg(kind: Kind, rng: &mut Rng) -> Cfg {
+    match kind {
+        Kind::Lru => Cfg::lru(rng.range(12, 48) as usize),
+        Kind::Slru => Cfg::slru(rng.range(6, 24) as usize, rng.range(6, 24) as usize),
+        Kind::TwoQ => Cfg::twoq(rng.range(12, 40) as usize, *rng.pick(&[0.1, 0.25, 0.5, 0.9]), *rng.pick(&[0.25, 0.5, 1.0])),
+        Kind::Arc => Cfg::arc(rng.range(12, 32) as usize),
+        Kind::Wtlfu => Cfg::wtlfu(rng.range(2, 6) as usize, rng.range(4, 12) as usize, rng.range(4, 12) as usize, *rng.pick(&[7usize, 32, 200]), *rng.pick(&[HKind::Ident, HKind::RandA, HKind::Fnv])),
+    }
+}
+
 pub fn random_cfg(kind: Kind, rng: &mut Rng, thorough: bool) -> Cfg {
     let cfgs = small_cfgs(kind, thorough);
-    let mut c = rng.pick(&cfgs).clone();
+    let mut c = if rng.chance(1, 12) { medium_cfg(kind, rng) } else { rng.pick(&cfgs).clone() };
     c.hk = *rng.pick(&HKINDS);
     // mostly the hasher-taking constructors / builders, sometimes the plain constructors
     c.ctor = match rng.below(8) {
